@@ -100,6 +100,14 @@ def run(prog, check):
                 fx_writers += 1
                 check.ob('C01.W', '%s::declares-FX(%s)' % (f.key, unparse(c.args[0])), ok, '%s:%d' % (f.module.rel, c.lineno),
                          'NET_* declared empty' if ok else 'NET_* given content outside the FX primitives', 'any cross-currency flow')
+    # the ledger reads every AddTerm as one independent entry: the equation must keep its own copy of the term
+    from ._common import addterm_private_copy
+    at_, ok_ = addterm_private_copy(prog)
+    check.saw(at_)
+    check.ob('C01.W', '%s::entry-is-private-to-its-equation' % at_.key, ok_, at_.where,
+             'a booked term is copied into the equation: the entries of F and INC are independent' if ok_ else
+             'the object passed in can become the entry itself: one booking shared by F and INC (or by two sectors) is rewritten when like terms merge in either',
+             'the same flow name booked twice on one sector (F merges to 2*x, INC must stay as booked)')
     # ---- R1 ----------------------------------------------------------------------------------------
     n_units = 0
     core_units = booking_units(prog, True)
